@@ -34,14 +34,14 @@ type c03Fault struct {
 }
 
 type c03Sub struct {
-	idx      int
-	fault    c03Fault
-	faultID  int
-	followID int
-	reqs     map[int]*ReqSpec
-	resps    map[int]*RespSpec
-	client   *Client
-	region   string
+	idx       int
+	fault     c03Fault
+	faultID   int
+	followID  int
+	reqs      map[int]*ReqSpec
+	resps     map[int]*RespSpec
+	client    *Client
+	region    string
 	pipelined bool
 }
 
